@@ -409,9 +409,10 @@ def catalogue():
             cs = [env.child("u") for _ in range(k)]
             e = pt.Assert(*[c for c, _ in cs], comment=comment) if comment is not None else pt.Assert(*[c for c, _ in cs])
             return {"expr": e, "term": SEQ(*[SEQ(C(ci), OP("assert")) for _, ci in cs])}
-        return Scenario(f"Assert/{k}/comment={comment is not None}", "Assert", build, modes=["Application"])
+        tag = "none" if comment is None else ("multiline" if "\n" in comment else "single")
+        return Scenario(f"Assert/{k}/comment={tag}", "Assert", build, modes=["Application"])
     for k in (1, 2, 3):
-        for cm in (None, "why // int 0; err"):
+        for cm in (None, "why // int 0; err", "first line\nint 1\nreturn"):
             S.append(assert_(k, cm))
 
     # ---- Return / Approve / Reject / ExitProgram ---------------------------------------------------------------
